@@ -58,8 +58,13 @@ def one_case(out: Outcome, rng, cls: str, p: dict, pre: list, post: list, runner
     # every public attribute reads as on a new instance - by enumeration of the class's public properties, not by a list of names
     try:
         ra, rf = dets.public_reads(a.det), dets.public_reads(dets.make(cls, p))
+        rf2 = dets.public_reads(dets.make(cls, p))
         for name in sorted(ra):
             if name in rf and ra[name] != rf[name]:
+                if rf2.get(name) != rf[name]:
+                    # two NEW instances already disagree on it (an identifier, a creation time): not a function of configuration and history, hence not an output
+                    out.count("public_attributes_not_a_function_of_the_history")
+                    continue
                 out.violation(f"{cls}: after reset() the public attribute `{name}` reads {str(ra[name])[:120]}, on a new instance {str(rf[name])[:120]}",
                               {"class": cls, "params": p, "pre": pre, "post": [], "attribute": name})
                 break
